@@ -26,6 +26,10 @@ pub mod c20;
 use crate::obs::Ctx;
 
 pub fn run(check: &str, ctx: &mut Ctx) -> bool {
+    // the Miri layers are codec-free (Miri cannot enter zstd's C code, and the Rust codecs are far too slow under it)
+    if ctx.sub == "miri" {
+        crate::hostile::NO_ZSTD.store(true, std::sync::atomic::Ordering::Relaxed);
+    }
     match check {
         "c01" => c01::run(ctx),
         "c02" => c02::run(ctx),
